@@ -865,7 +865,7 @@ def r19h(R):
             'printf fields are filled with None')
 
 
-@rule('R06.l', ('C06', 'C15', 'C01'), 'operands that may not be registers are '
+@rule('R06.l', ('C06', 'C15', 'C01', 'C18'), 'operands that may not be registers are '
       'parsed with registers excluded; a quoted value goes to the name '
       'register only; a name may be one character long', floor=5,
       decides='documented restrictions are enforced at compile time and '
